@@ -40,6 +40,9 @@ ASSUMPTIONS = [
     'single-output tail to a single-input head, train is only called on stateful workers (documented call domain)',
     'placeholders are square (Future(n, n), n in 1..2): input port i of a placeholder feeds its output port i',
     'the process-global Subscription._PORTS registry is emptied before every case (fresh universe = fresh process)',
+    'placeholders are transparent: a further publisher registered on a placeholder port is neither required nor '
+    'forbidden as long as no worker port ends up with two worker publishers (forml\'s own test fixtures share one '
+    'placeholder as train and label head); the call that completes a double connection is the illegal one',
     'not judged (the property does not fix them): a trained worker wired to a dangling placeholder, placeholder-only '
     'cycles (only "no exception other than TopologyError" is required afterwards), ambiguous/wide/disconnected tails, '
     'copy of a segment ending in a placeholder, a composition whose only placeholder is the (ignored) tail node',
@@ -251,7 +254,7 @@ def _adopt_copy(exp, real: interp.Real, result):
 
     cands = [candidates(n) for n in nodes]
     base = len(real.nodes)
-    want = {(a, b, x, str(k)) for (x, k), (a, b) in exp.m.pub.items() if x >= base and exp.m.is_w(x) and exp.m.is_w(a)}
+    want = {(up[0], up[1], x, str(k)) for (x, k), up in exp.m.pub.items() if x >= base and exp.m.is_w(x) and exp.m.is_w(up[0])}
     count = 0
     for combo in itertools.product(*cands):
         count += 1
@@ -304,7 +307,7 @@ def run_history(ctx, spec, nodes, ops, clean: bool, stats: dict):
             stats['avoided'] += 1
             continue
         history.append(rop)
-        tags = sorted(exp.tags)
+        tags = sorted(exp.tags) + (['clean-pass'] if clean else [])  # nothing recorded may hide in the clean pass
         before = None if blind else real.snapshot()
         result, exc = None, None
         try:
@@ -354,12 +357,18 @@ def run_history(ctx, spec, nodes, ops, clean: bool, stats: dict):
                 if exp.reason == 'cycle':
                     stats['cycle'] += 1
                 continue
+            if verdict == 'either' and exp.link_either:
+                # a refused extra registration on a placeholder: nothing may have changed, else we cannot follow
+                if exp.links_after_either or real.snapshot() != before:
+                    stats['stopped'] = 'undetermined:either-link'
+                    return (model, real)
+                continue
             if verdict in ('te', 'either') and exp.te_state_known:
                 if verdict == 'te':
                     stats['illegal'] += 1
                     stats[exp.reason] = stats.get(exp.reason, 0) + 1
                 model = model.clone()
-                model.pub = dict(exp.m.pub)
+                model.pub = exp.m.clone().pub
                 diff = _compare(model, real)
                 if diff:
                     ctx.fail(spec, 'state', diff[0], f'after refused {rop}: {diff[1]}', tags + ['refused'])
@@ -437,15 +446,7 @@ def _new_stats():
 
 
 def _chain_depth(model: Model) -> int:
-    """Largest number of placeholders a resolved worker->worker connection passes through."""
-    best = 0
-    for (x, _), (m, j) in model.pub.items():
-        if not model.is_w(x):
-            continue
-        chain, _cyc = model.chain(m, j)
-        if model.is_w(chain[-1][0]):
-            best = max(best, len(chain) - 1)
-    return best
+    return model.depth()
 
 
 def _classes(prefix, stats, final):
@@ -540,9 +541,9 @@ def check_perm(ctx, spec):
 def campaigns(ctx):
     thorough = ctx.tier == 'thorough'
     return [
-        Campaign('history', history_spec(False), check_history, 2200, 20000),
-        Campaign('clean', history_spec(True), check_history, 2200, 20000),
-        Campaign('perm', perm_spec(thorough), check_perm, 500, 600),
+        Campaign('history', history_spec(False), check_history, 2200, 12000),
+        Campaign('clean', history_spec(True), check_history, 2200, 12000),
+        Campaign('perm', perm_spec(thorough), check_perm, 500, 400),
     ]
 
 
